@@ -1557,7 +1557,7 @@ func (g *SpecGen) decodeContract(r *Record) {
 		w.ord++
 		inv(k, "")
 		for _, f := range msgFields(r, false) {
-			walkArr(f.Type, "*"+g.fieldExpr(r, f), 1, "")
+			walkArr(f.Type, "*"+g.fieldExpr(r, f), 3, "")
 		}
 	case Union:
 		k := w.ord
@@ -1703,7 +1703,7 @@ func (g *SpecGen) unmarshalContract(r *Record) {
 			for _, f := range msgFields(r, false) {
 				p := g.fieldExpr(r, f)
 				w.nn = p + " != nil"
-				g.walkDecSafe(f.Type, "*"+p, 1, true, w)
+				g.walkDecSafe(f.Type, "*"+p, 3, true, w)
 				w.nn = ""
 			}
 		case Union:
